@@ -167,13 +167,13 @@ def run(ctx):
     F = corr.fl
     cases = []
     Ls = [0, 1, 2, 3, 4, 5, 7, -1]
-    toks = ['a', 'b', '{a,b}', '{1..3}', '{a,b}{c,d}', 'x|y', 'a|a', '!n', '{1..12}', '*', '-m', 'x|', '|y', 'a||b', '{a|,b|}', '|']
+    toks = ['a', 'b', '{a,b}', '{1..3}', '{a,b}{c,d}', 'x|y', 'a|a', '!n', '{1..12}', '*', '-m', 'x|', '|y', 'a||b', '{a|,b|}', '|', 'A', '{a,A}', 'X|x', '!N', '[a-z]', '[A-z]']
     n = 1500 if ctx.quick else 12000
     for i in range(n):
         ps = [rng.choice(toks) + rng.choice(['', rng.choice(toks)]) for _ in range(rng.randint(0, 3))]
         ex = None if rng.random() < 0.45 else [rng.choice(toks) for _ in range(rng.randint(0, 3))]
         f = F('BRACE')
-        for nm in ('SPLIT', 'NEGATE', 'MINUSNEGATE', 'NEGATEALL', 'NODIR', 'PATHNAME', 'EXTMATCH'):
+        for nm in ('SPLIT', 'NEGATE', 'MINUSNEGATE', 'NEGATEALL', 'NODIR', 'PATHNAME', 'EXTMATCH', 'IGNORECASE', 'FORCEWIN'):
             if rng.random() < 0.35:
                 f |= F(nm)
         cases.append((rng.randint(0, 1), rng.randint(0, 1), f, rng.choice(Ls), ps, ex))
